@@ -28,6 +28,7 @@ def absFn : Fn → LeafMap → LeafMap
       let M1 := if (curFins M).any (isStr f)
                 then setA M FP (.arr ((curFins M).filter (fun x => !isStr f x))) else M
       if isEmptyArr (M1 FP) then delA M1 FP else M1
+  | .mergeWith q, M => absKvs M [] q
 
 def absFns : List Fn → LeafMap → LeafMap
   | [], M => M
@@ -224,6 +225,13 @@ theorem applyFn_sem (a a' : J) (f : Fn) (h : applyFn a f = .ok a') : leafAt a' =
         simp only [h2] at h
         rw [dropEmptyMeta_sem b2 a' h, dropEmptyFins_sem b1 b2 h2, stripFinalizer_sem f a b1 h1]
         rfl
+  | mergeWith q =>
+    cases a with
+    | obj tk =>
+      simp only [applyFn] at h
+      cases h
+      exact mergeKvs_sem q tk
+    | _ => simp [applyFn] at h
 
 theorem applyFns_sem : ∀ (fns : List Fn) (a a' : J), applyFns a fns = .ok a' →
     leafAt a' = absFns fns (leafAt a)
